@@ -251,6 +251,9 @@ package memefish
 // @   panics when !noPanic
 // @   modifies l.pos, l.Token.Kind, l.Token.AsString, l.File.lines
 
+// A token whose kind is a single character is exactly that character of the input.
+// @ spec punct1(l, p) = len(l.Token.Kind) == 1 ==> l.pos == p + 1 && p < len(l.Buffer) && l.Buffer[p] == l.Token.Kind[0]
+
 // @ func memefish.(*Lexer).consumeToken
 // @   props C03 C13
 // @   requires LexInv(l)
@@ -259,6 +262,7 @@ package memefish
 // @   ensures l.Token.Kind == "<eof>" ==> l.pos == old(l.pos)
 // @   ensures l.Token.Kind != "<eof>" ==> l.pos > old(l.pos)
 // @   ensures !noPanic ==> l.Token.Kind != "<bad>"
+// @   ensures[C12,C14] punct1: punct1(l, old(l.pos))
 // @   panics when !noPanic
 // @   modifies l.pos, l.Token.Kind, l.Token.AsString, l.Token.Base, l.dotIdent, l.File.lines
 // @   loop 0 invariant LexInv(l) && l.pos == old(l.pos) && 1 <= i && l.pos + i <= len(l.Buffer)
@@ -276,6 +280,7 @@ package memefish
 // @   ensures l.Token.Kind == "<eof>" ==> l.pos == old(l.pos)
 // @   ensures l.Token.Kind != "<eof>" ==> l.pos > old(l.pos)
 // @   ensures !noPanic ==> l.Token.Kind != "<bad>"
+// @   ensures[C12,C14] punct1: punct1(l, old(l.pos))
 // @   panics when !noPanic
 // @   modifies l.pos, l.Token.Kind, l.Token.AsString, l.Token.Base, l.dotIdent, l.File.lines
 // @   loop 0 invariant LexInv(l) && l.pos == old(l.pos) && 0 <= i && l.pos + i <= len(l.Buffer) && (i == 0 ==> l.pos < len(l.Buffer) && isIdentPart(l.Buffer[l.pos]))
@@ -298,15 +303,41 @@ package memefish
 // @   ensures[C13] comments: commentsOK(l, old(l.pos))
 // @   ensures[C13] tile: old(l.pos) <= triviaEnd(l, old(l.pos)) && triviaEnd(l, old(l.pos)) <= l.Token.Pos
 // @   ensures[C13] space: l.Token.Kind != "<bad>" || l.Token.Pos < l.Token.End ==> isSub(l.Token.Space, l.Buffer, triviaEnd(l, old(l.pos)), l.Token.Pos) && spaceOnly(l.Buffer, triviaEnd(l, old(l.pos)), l.Token.Pos)
-// @   ensures[C13] raw: isSub(l.Token.Raw, l.Buffer, l.Token.Pos, l.Token.End) || (len(l.Token.Raw) == 0 && l.Token.Pos == l.Token.End)
+// @   ensures[C13] raw: isSub(l.Token.Raw, l.Buffer, l.Token.Pos, l.Token.End) || (l.Token.Kind == "<bad>" && len(l.Token.Raw) == 0 && l.Token.Pos == l.Token.End)
 // @   ensures[C13] eof: l.Token.Kind == "<eof>" ==> l.Token.Pos == len(l.Buffer) && l.Token.End == len(l.Buffer)
 // @   ensures[C13] nonempty: l.Token.Kind != "<eof>" && l.Token.Kind != "<bad>" ==> l.Token.Pos < l.Token.End
 // @   ensures[C13,C03] progress: l.Token.Kind != "<eof>" ==> l.pos > old(l.pos)
 // @   ensures l.lastTokenKind == old(l.Token.Kind)
 // @   ensures !noPanic ==> l.Token.Kind != "<bad>"
+// @   ensures[C12,C14] punct1: len(l.Token.Kind) == 1 ==> l.Token.End == l.Token.Pos + 1 && l.Buffer[l.Token.Pos] == l.Token.Kind[0]
 // @   panics when !noPanic
 // @   modifies l.pos, l.Token.*, l.lastTokenKind, l.dotIdent, l.File.lines
 // @   loop 0 invariant LexInv(l) && old(l.pos) <= l.pos && l.pos == triviaEnd(l, old(l.pos))
 // @   loop 0 invariant commentsOK(l, old(l.pos))
 // @   loop 0 invariant l.lastTokenKind == old(l.Token.Kind)
 // @   loop 0 decreases len(l.Buffer) - l.pos
+
+// @ func memefish.(*Lexer).Clone
+// @   props C03 C10 C18
+// @   requires l != nil
+// @   ensures result != nil && fresh(result) && result.pos == l.pos && result.File == l.File && result.Token == l.Token && result.lastTokenKind == l.lastTokenKind && result.dotIdent == l.dotIdent
+// @   modifies nothing
+
+// NextToken: the public entry point. Never panics; a lexical error is returned as *Error (C03).
+// On success it has the postcondition of nextToken(false).
+// @ func memefish.(*Lexer).NextToken
+// @   props C03 C13
+// @   requires LexInv(l)
+// @   ensures[C03] typed: err == nil || typeIs(err, "*memefish.Error")
+// @   ensures err == nil ==> LexInv(l) && l.Token.End == l.pos && old(l.pos) <= l.Token.Pos && l.Token.Pos <= l.Token.End
+// @   ensures[C13] comments: err == nil ==> commentsOK(l, old(l.pos))
+// @   ensures[C13] tile: err == nil ==> old(l.pos) <= triviaEnd(l, old(l.pos)) && triviaEnd(l, old(l.pos)) <= l.Token.Pos
+// @   ensures[C13] space: err == nil ==> isSub(l.Token.Space, l.Buffer, triviaEnd(l, old(l.pos)), l.Token.Pos) && spaceOnly(l.Buffer, triviaEnd(l, old(l.pos)), l.Token.Pos)
+// @   ensures[C13] raw: err == nil ==> isSub(l.Token.Raw, l.Buffer, l.Token.Pos, l.Token.End)
+// @   ensures[C13] eof: err == nil && l.Token.Kind == "<eof>" ==> l.Token.Pos == len(l.Buffer) && l.Token.End == len(l.Buffer)
+// @   ensures[C13] nonempty: err == nil && l.Token.Kind != "<eof>" ==> l.Token.Pos < l.Token.End
+// @   ensures[C13,C03] progress: err == nil && l.Token.Kind != "<eof>" ==> l.pos > old(l.pos)
+// @   ensures err == nil ==> l.Token.Kind != "<bad>" && l.lastTokenKind == old(l.Token.Kind)
+// @   ensures[C12,C14] punct1: err == nil && len(l.Token.Kind) == 1 ==> l.Token.End == l.Token.Pos + 1 && l.Buffer[l.Token.Pos] == l.Token.Kind[0]
+// @   panics never
+// @   modifies l.pos, l.Token.*, l.lastTokenKind, l.dotIdent, l.File.lines
